@@ -18,7 +18,63 @@ prepare = SC.prepare
 
 
 def shards(tier, seed):
-    return SC.shards(tier, seed, q_cases=600, real=False)
+    out = SC.shards(tier, seed, q_cases=600, real=False)
+    q = tier == 'quick'
+    # the beam must also hold on the multiprocessing path (settings travel to the workers)
+    out += [{'name': f'pool{k}', 'variant': 'plain', 'build': 'plain', 'kind': 'pool', 'cases': 3 if q else 40,
+             'budget_s': 50 if q else 600, 'timeout': 1500} for k in range(2)]
+    return out
+
+
+def run_pool(spec, R):
+    from vlib import oracle_cky
+    from vlib.runner import shard_rng, stable_hash
+    E = search.Engine(R, spec['variant'], PROP)
+    from depccg.types import Token, ScoringResult
+    rng = shard_rng(ID, spec['seed'], spec['name'])
+    for ci in range(spec['cases']):
+        n = rng.randint(21, 40)
+        case = search.gen_case(rng, n_sent=n, beam=True, max_n=5, sparse=True, family='softmax')
+        cfg = case['config']
+        T = len(case['cats'])
+        cfg['pruning_size'] = rng.randint(1, max(1, T - 1))
+        case['exact'] = False
+        doc = [[Token(word=w) for w in words] for words, _, _ in case['sentences']]
+        scores = [ScoringResult(t.copy(), d.copy()) for _, t, d in case['sentences']]
+        wit = {'case': search.case_to_json(case), 'path': 'pool'}
+        try:
+            res = E.P.run(doc, scores, list(case['cats']), list(case['roots']), case['binary'], case['unary'],
+                          processes=rng.choice((2, 3)), max_chunk_size=rng.choice((1, 5, 20)), **cfg)
+        except Exception as e:
+            R.violation('run:raises', f'pool path raised {e!r}', wit)
+            continue
+        R.count('pool:calls')
+        for si, (words, tag, dep) in enumerate(case['sentences']):
+            must, may = zip(*[oracle_cky.admitted_tags(tag[i], cfg['pruning_size'], cfg['use_beta'], cfg['beta']) for i in range(len(words))])
+            excl = any(len(m) < T for m in may)
+            R.case(stable_hash((wit['case']['sentences'][si], cfg)), excl)
+            if excl:
+                R.count('beam:cases-with-exclusion')
+            if search.is_placeholder(res[si]):
+                try:
+                    best, _ = oracle_cky.Oracle(tag, dep, case['cats'], case['binary'], case['unary'], case['roots'], cfg['unary_penalty'], list(must)).best()
+                except oracle_cky.Budget:
+                    continue
+                R.count('monitor:failure-legitimacy')
+                if best is not None:
+                    E.violation('astar:failed-but-derivable', f'pool path: sentence {si} failed although a derivation exists over the admitted tags', dict(wit, sentence=si))
+            else:
+                R.count('monitor:tree-validated')
+                # leaf tokens are pickled copies on this path: compare tags only
+                idx = {c: i for i, c in enumerate(case['cats'])}
+                for li, leaf in enumerate(res[si][0].tree.leaves):
+                    t = idx.get(leaf.cat)
+                    if t is None or t not in may[li]:
+                        E.violation('beam:tag-beyond-pruning', f'pool path: sentence {si} leaf {li} uses tag {leaf.cat} which the beam '
+                                    f'(pruning_size={cfg["pruning_size"]}, use_beta={cfg["use_beta"]}, beta={cfg["beta"]}) does not admit', dict(wit, sentence=si))
+                        break
+        if R.out_of_time():
+            break
 
 
 def gen(rng, spec):
@@ -66,6 +122,8 @@ def per_case(E, case, sums):
 
 
 def run(spec, R):
+    if spec['kind'] == 'pool':
+        return run_pool(spec, R)
     SC.run(ID, PROP, spec, R, gen, nontrivial, per_case)
 
 
